@@ -642,6 +642,8 @@ pub fn run(s: &mut Session) -> bool {
          followed by a probe dispatch that must be accepted). Classes: single-dispatch (1 thread) and concurrent-dispatch (>=2). \
          Non-trivial = some dispatch was refused (more jobs in flight than the limit) or a job ran after all workers had retired; distinct = distinct serialised case.",
     );
+    // a process abort (double panic in a Drop, poisoned lock) while a case runs is a verdict about that case
+    p.crash_guard = true;
     p.quick_cases = 400;
     p.thorough_cases = 9000;
     p.replay_repeats = 30;
